@@ -1,6 +1,7 @@
 from common import COMMON_ASSUME
 
 PROP = dict(
+    technique='metamorphic property-based testing: the same call under generated call histories, stack/heap residue and in-place buffer histories must give identical results; the generated cases are replayed under MemorySanitizer',
     harness=['c15_history.c', 'vf_arr.c'],
     alloc=True,            # links vf_alloc.c: heap fill in the `oom` build
     replay_config='msan',  # a witness is replayed where both oracles are live
